@@ -695,11 +695,13 @@ func genAuth(rng *lib.Rng, s cfgSpec, wantOK bool) (hdrs [][2]string, at authTru
 		at.Form = "not-base64"
 		return [][2]string{{"Authorization", "Basic " + s.User + ":" + s.Pass}}, at
 	case 6:
-		at.Form = "scheme-bearer-right-creds"
-		return [][2]string{{"Authorization", "Bearer " + good}}, at
+		// (a wrong scheme token with the RIGHT credentials is not judged: whether "basic auth says no" to it is a
+		// matter of interpretation, so the form carries wrong credentials instead)
+		at.Form = "scheme-bearer-wrong-creds"
+		return [][2]string{{"Authorization", "Bearer " + b64(s.User+"x:"+s.Pass)}}, at
 	case 7:
-		at.Form = "scheme-digest-right-creds"
-		return [][2]string{{"Authorization", "Digest " + good}}, at
+		at.Form = "scheme-digest-wrong-creds"
+		return [][2]string{{"Authorization", "Digest " + b64(s.User+":"+s.Pass+"x")}}, at
 	case 8:
 		at.Form = "no-scheme"
 		return [][2]string{{"Authorization", good}}, at
